@@ -11,6 +11,7 @@ import (
 	"strings"
 	"sync"
 	"unicode"
+	"unicode/utf8"
 )
 
 var (
@@ -265,7 +266,7 @@ func New(rules Rules) (*StatefulDefinition, error) {
 			}
 			compiled[key] = append(compiled[key], compiledRule{
 				Rule:   rule,
-				ignore: len(rule.Name) > 0 && unicode.IsLower(rune(rule.Name[0])),
+				ignore: isLowerCaseName(rule.Name),
 				RE:     re,
 			})
 		}
@@ -307,6 +308,12 @@ restart:
 		symbols: symbols,
 	}
 	return d, nil
+}
+
+// isLowerCaseName reports whether the name starts with a lower-case letter (such rules are elided).
+func isLowerCaseName(name string) bool {
+	first, _ := utf8.DecodeRuneInString(name) // The first character, not the first byte.
+	return name != "" && unicode.IsLower(first)
 }
 
 func (d *StatefulDefinition) MarshalJSON() ([]byte, error) {
